@@ -63,7 +63,7 @@ def _router_paths(P, cname):
     """paths of <cname>.next_node -> list of (facts, returned index text, its defining expression text, path state)"""
     view = P.view(cname)
     cls, fn = view.method("next_node")
-    w = Walker(P, view, keep=lambda e: e.kind in ("guard", "return", "call") or (e.kind == "assign" and e.d.get("local")), track=lambda t, f: True, inline=lambda ev: False)
+    w = Walker(P, view, keep=lambda e: e.kind in ("guard", "return", "call") or (e.kind == "assign" and e.d.get("local")), track=lambda t, f: True, inline=rules.new_helper)
     out = []
     for st in w.paths_of(cls, fn):
         if st.status != "return":
@@ -295,7 +295,7 @@ def in_service(ctx, P, iters):
                         if dc != ds:
                             bad.append((obj, dc, ds, st))
                 results[m] = (cls, fn, bad, touched)
-                if bad and m not in unbalanced and rules.is_private_helper(P, view, m) and cls.name == "Node" and m not in ("preempt", "interrupt_service", "begin_interrupted_individuals_service"):
+                if bad and m not in unbalanced and rules.is_private_helper(P, view, m) and (cls.name == "Node" or m not in rules.ANCHOR_METHODS) and m not in ("preempt", "interrupt_service", "begin_interrupted_individuals_service"):
                     unbalanced.add(m)
                     changed = True
             if not changed:
@@ -326,7 +326,7 @@ def class_change(ctx, P, iters):
             if not any(isinstance(x, ast.Assign) and isinstance(x.targets[0], ast.Attribute) and x.targets[0].attr == "customer_class" for x in ast.walk(fn)):
                 continue
             w = Walker(P, view, keep=lambda e: e.kind == "assign" and not e.d.get("local") and (e.d["target"].endswith(".customer_class") or e.d["target"].endswith(".priority_class")),
-                       inline=lambda ev: False, loop_iters=iters)
+                       inline=rules.new_helper, loop_iters=iters)
             for st in w.paths_of(cls, fn):
                 evs = st.events
                 for i, e in enumerate(evs):
@@ -357,7 +357,7 @@ def class_change(ctx, P, iters):
         cls, fn = view.method("have_event")
         n += 1
         ob.ok("%s.have_event:priority" % view.name)
-        w = Walker(P, view, keep=lambda e: e.kind == "call" and e.d["meth"] == "IndividualType", inline=lambda ev: False)
+        w = Walker(P, view, keep=lambda e: e.kind == "call" and e.d["meth"] == "IndividualType", inline=rules.new_helper)
         ctor = [e for st in w.paths_of(cls, fn) for e in st.events]
         if not ctor or any(e.d["args"][1:3] != ["self.next_class", "self.simulation.network.priority_class_mapping[self.next_class]"] for e in ctor):
             ctx.violation(ob, "R2.priority-remap", "%s.have_event" % cls.name, "IndividualType(id, next_class, priority_class_mapping[next_class])", "priority-not-remapped",
@@ -371,7 +371,7 @@ def flexible_update(ctx, P, ob):
     cls, fn = view.method("update_individual_route")
     ind, nid = fn.args.args[1].arg, fn.args.args[2].arg
     for rule in ("any", "all"):
-        w = Walker(P, view, keep=lambda e: e.kind == "guard" or (e.kind == "call" and e.d["meth"] in ("remove", "pop")) or (e.kind == "assign" and not e.d.get("local")), track=lambda t, f: True, inline=lambda ev: False)
+        w = Walker(P, view, keep=lambda e: e.kind == "guard" or (e.kind == "call" and e.d["meth"] in ("remove", "pop")) or (e.kind == "assign" and not e.d.get("local")), track=lambda t, f: True, inline=rules.new_helper)
         okk, npaths = True, 0
         for st in w.paths_of(cls, fn, facts={("eq", "'any'", "self.rule"): rule == "any", ("eq", "'all'", "self.rule"): rule == "all"}):
             if st.status == "raise":
